@@ -198,12 +198,12 @@ func (t *transport) handle() {
 		case b := <-responses:
 			req, ok := outstanding[b.Tag]
 			if !ok {
-				// BUG(stevvooe): The exact handling of an unknown tag is
-				// unclear at this point. These may not necessarily fatal to
-				// the session, since they could be messages that the client no
-				// longer cares for. When we figure this out, replace this
-				// panic with something more sensible.
-				panic(fmt.Sprintf("unknown tag received: %v", b))
+				// A reply whose tag is not outstanding: the request was
+				// never issued, has already been answered, or the peer
+				// repeats itself. This must not take the client down;
+				// nobody is waiting for it, so drop it.
+				log.Printf("p9p: dropping reply with unknown tag: %v", b)
+				continue
 			}
 
 			// BUG(stevvooe): Must detect duplicate tag and ensure that we are
